@@ -13,7 +13,7 @@ CHECKS="${*:-$P}"
 SRC=/tmp/mut/$P.out
 F=$V
 # second wave: variants c/d are a/b of /tmp/mut/<P>.out2
-case $V in c) SRC=/tmp/mut/$P.out2; F=a;; d) SRC=/tmp/mut/$P.out2; F=b;; e) SRC=/tmp/mut/$P.out3; F=a;; f) SRC=/tmp/mut/$P.out3; F=b;; g) SRC=/tmp/mut/$P.out4; F=a;; h) SRC=/tmp/mut/$P.out4; F=b;; i) SRC=/tmp/mut/$P.out5; F=a;; j) SRC=/tmp/mut/$P.out5; F=b;; k) SRC=/tmp/mut/$P.out6; F=a;; l) SRC=/tmp/mut/$P.out6; F=b;; m) SRC=/tmp/mut/$P.out7; F=a;; n) SRC=/tmp/mut/$P.out8; F=a;; o) SRC=/tmp/mut/$P.out9; F=a;; p) SRC=/tmp/mut/$P.out10; F=a;; esac
+case $V in c) SRC=/tmp/mut/$P.out2; F=a;; d) SRC=/tmp/mut/$P.out2; F=b;; e) SRC=/tmp/mut/$P.out3; F=a;; f) SRC=/tmp/mut/$P.out3; F=b;; g) SRC=/tmp/mut/$P.out4; F=a;; h) SRC=/tmp/mut/$P.out4; F=b;; i) SRC=/tmp/mut/$P.out5; F=a;; j) SRC=/tmp/mut/$P.out5; F=b;; k) SRC=/tmp/mut/$P.out6; F=a;; l) SRC=/tmp/mut/$P.out6; F=b;; m) SRC=/tmp/mut/$P.out7; F=a;; n) SRC=/tmp/mut/$P.out8; F=a;; o) SRC=/tmp/mut/$P.out9; F=a;; p) SRC=/tmp/mut/$P.out10; F=a;; q) SRC=/tmp/mut/$P.out11; F=a;; esac
 DST=/verif/seeded/$P-$V
 WT=/tmp/seedwt.$P.$V.$$
 mkdir -p $DST/demo
